@@ -45,10 +45,17 @@ MATH_ENVS = ('align', 'align*', 'alignat', 'array', 'displaymath', 'eqnarray', '
 VERB_ENVS = ('lstlisting', 'verbatim', 'verbatimtab', 'Verbatim', 'listing')
 LIST_ENVS = ('itemize', 'enumerate', 'description')
 PLAIN_ENVS = ('center', 'figure', 'table', 'tabular', 'abstract', 'quote', 'minipage', 'theorem', 'proof',
-              'document', 'e', 'foo', 'frame', 'figure*')
+              'document', 'e', 'foo', 'frame', 'figure*',
+              # neighbours of special names: ordinary environments
+              'text', 'itemizes', 'verbatims', 'maths', 'ends', 'lstlistings', 'item', 'equations', 'listin', 'tex')
 RESERVED = set(FIXED) | set(SPECIAL) | set(ZERO_OPS_MATH) | set(ZERO_OPS_TEXT) | {'item', 'begin', 'end'}
 CMD_POOL = ('x', 'y', 'foo', 'bar', 'emph', 'textit', 'cite', 'ref', 'footnote', 'vspace', 'hline',
-            'includegraphics', 'usepackage', 'caption', 'url', 'centering', 'q', 'Z', 'par', 'today')
+            'includegraphics', 'usepackage', 'caption', 'url', 'centering', 'q', 'Z', 'par', 'today',
+            # neighbours of the names the reader treats specially (prefix / extension / starred form): they are
+            # ordinary commands with an open signature
+            'text', 'itemsep', 'itemindent', 'endnote', 'endgraf', 'begingroup', 'items', 'sectionmark', 'labels',
+            'section*', 'textbf*', 'label*', 'def*', 'in*', 'cup*', 'notin*', 'newcommandx', 'verbatim', 'math',
+            'equation', 'tex', 'infty*', 'noindent*', 'inf', 'i', 'e')
 MATH_CMD_POOL = (('frac', 0, 2), ('sqrt', 1, 1), ('sqrt', 0, 1), ('mathbf', 0, 1), ('sum', 0, 0), ('alpha', 0, 0),
                  ('int', 0, 0), ('text', 0, 1), ('hat', 0, 1), ('vec', 0, 1), ('mathcal', 0, 1), ('cdot', 0, 0),
                  ('ldots', 0, 0), ('le', 0, 0), ('binom', 0, 2), ('lim', 0, 0), ('to', 0, 0), ('min', 0, 0))
@@ -745,7 +752,10 @@ class Gen:
     def special(self, cx, depth):
         r = self.rng
         c = cx.inside(special=True)
-        nm = Node('group', 'brace', children=[Node('cmd', 'generic', self.name().rstrip('*'))])
+        defined = self.name().rstrip('*')
+        while defined in RESERVED:      # `{\textbf}`: a fixed-signature command without its mandatory argument
+            defined = self.name().rstrip('*')
+        nm = Node('group', 'brace', children=[Node('cmd', 'generic', defined)])
         args = [nm]
         if r.random() < 0.6:
             args.append(Node('group', 'bracket', children=[text(str(r.randint(1, 9)))]))
